@@ -18,7 +18,9 @@ RULE = ("(i) frame monitor around every call: __setattr__/__delattr__ tap on the
         "model object between entry and exit), model.__dict__ snapshots (openskill.* module globals are snapshotted too, informational); (ii)/(iii) "
         "history-free oracle: sequences of 5-50 mixed rate/predict calls with random per-call tau/limit_sigma on one "
         "long-lived model, every call re-run on a fresh identically constructed model with fresh rating objects and "
-        "compared bit for bit, with ids overwritten (sorted/reversed/equal strings), names permuted; (iv) the same seeded "
+        "compared bit for bit, with ids overwritten (sorted/reversed/equal strings), names permuted; plus feedback "
+        "sequences in which the SAME rating objects are rated again and again (10-120 steps) and every call is compared with "
+        "the history-free result for the values the objects held before it; (iv) the same seeded "
         "workload run in subprocesses under several PYTHONHASHSEED values, SHA-256 digests of all returned floats "
         "compared; (v) schedule monitor: 4-8 real threads x 6-10 calls through one shared model on disjoint ratings, "
         "sys.monitoring LINE events log (thread, function, line) and inject time.sleep(0) at statement boundaries with "
@@ -35,6 +37,7 @@ TECHNIQUE = "runtime monitoring: attribute-write tap + history-free shadow execu
 def floors(tier):
     q = tier == "quick"
     return {"frame/no-write": 6000 if q else 150000, "history-free": 6000 if q else 150000,
+            "history-free/feedback": 4000 if q else 100000,
             "threads/call": 1500 if q else 40000, "hashseed/digest": 3 if q else 5}
 
 
@@ -69,6 +72,12 @@ def generate(ctx):
             cfg["tau"] = cfg["beta"] * ctx.rng.choice([1, 3])
         ops = gen_ops(ctx.rng, cfg, ctx.rng.randint(5, 50 if ctx.tier == "thorough" else 25))
         yield "seq", dict(model=m, cfg=cfg, ops=ops, idmode=ctx.rng.choice(["default", "sorted", "reversed", "equal", "swapnames"]))
+    for _ in range(ctx.budget(300, 6000)):
+        m = ctx.rng.choice(MODEL_NAMES)
+        cfg = league.league_cfg(ctx.rng, gen)
+        cfg["tau"] = cfg["beta"] * ctx.rng.choice([0.02, 0.3, 1.0])
+        yield "fb", dict(model=m, cfg=cfg, players=ctx.rng.randint(6, 14), steps=ctx.rng.randint(10, 40 if ctx.tier == "quick" else 120),
+                         seed=ctx.rng.randrange(2 ** 31))
     rounds = ctx.budget(60, 1500)
     for _ in range(rounds):
         m = ctx.rng.choice(MODEL_NAMES)
@@ -263,7 +272,73 @@ def probe_threads(ctx, payload):
                         distinct_switch_points=len(st["switch_points"])))
 
 
-PROBES = {"seq": probe_seq, "threads": probe_threads}
+def probe_fb(ctx, payload):
+    """feedback sequence: the SAME rating objects are rated again and again through one long-lived model (as an
+    application does); every call is compared with the history-free result for the values the objects held before it"""
+    model_name, cfg = payload["model"], payload["cfg"]
+    Ms = models()
+    model = league.make_model(model_name, cfg, Ms)
+    rng = random.Random(payload["seed"])
+    beta = cfg["beta"]
+    pool = [model.rating(rng.gauss(6 * beta, 2 * beta), abs(rng.gauss(2 * beta, 0.5 * beta)) + 0.05 * beta, f"F{i}")
+            for i in range(payload["players"])]
+    prev_call = None
+    for step in range(payload["steps"]):
+        k = rng.choice([2, 2, 3, 4])
+        sizes = [rng.choice([1, 1, 2]) for _ in range(k)]
+        if sum(sizes) > len(pool):
+            sizes = [1] * k
+        idx = rng.sample(range(len(pool)), sum(sizes))
+        tidx, pos = [], 0
+        for sz in sizes:
+            tidx.append(idx[pos:pos + sz])
+            pos += sz
+        teams = [[pool[i] for i in t] for t in tidx]
+        vals = [[[p.mu, p.sigma, p.name] for p in t] for t in teams]
+        r = rng.random()
+        if r < 0.7:
+            lv = gen.weak_order(rng, k)
+            sel, v, _ = gen.outcome_kwargs(rng, lv)
+            call = {}
+            if rng.random() < 0.6:
+                call["limit_sigma"] = rng.choice([True, False])
+            if rng.random() < 0.4:
+                call["tau"] = rng.choice([0, 1e-3 * beta, beta, 3 * beta])
+            op = dict(op="rate", teams=vals, sel=sel, vals=v, call=call)
+            o = observe(model, "rate", teams, **_kw(op))
+        else:
+            op = dict(op=rng.choice(["predict_win", "predict_draw", "predict_rank"]), teams=vals)
+            o = observe(model, op["op"], teams)
+        reg = f"feedback/{op['op']}"
+        if o.exc is not None:
+            ctx.ev("no-return")
+            ctx.violation("no-return", "fb", payload, dict(step=step, exc=exc_detail(o.exc)), model_name, reg)
+            return
+        nums = _numbers(op, o.res)
+        ctx.ev("frame/no-write")
+        ch = attrs_changed(o)
+        if o.writes or ch:
+            ctx.violation("frame/model-write", "fb", payload, dict(step=step, op=op["op"], call=op.get("call"),
+                                                                  writes=[w[:3] for w in o.writes[:5]], attrs_changed=ch[:5]), model_name, reg)
+        ctx.ev("history-free")
+        ctx.ev("history-free/feedback")
+        _, want = oracle(model_name, cfg, op, Ms)
+        if not _same(nums, want):
+            first = next((i for i, (x, y) in enumerate(zip(nums or [], want or [])) if float(x).hex() != float(y).hex()), None)
+            ctx.violation("history-free", "fb", payload,
+                          dict(step=step, op=op["op"], call=op.get("call"), previous_call=prev_call, first_diff_index=first,
+                               got=(nums or [None])[first or 0], want=(want or [None])[first or 0]), model_name, reg)
+            return
+        if op["op"] == "rate":
+            prev_call = op.get("call") or {}
+            for t_i, t_out in zip(tidx, o.res):
+                for i, p in zip(t_i, t_out):
+                    pool[i] = p
+        ctx.case(dict(f=payload["seed"], s=step), step > 0)
+    ctx.bucket("feedback_sequences", KIND[model_name])
+
+
+PROBES = {"seq": probe_seq, "threads": probe_threads, "fb": probe_fb}
 
 
 # ------------------------------------------------------------------------------------------- hash-seed sweep (driver side)
